@@ -78,7 +78,13 @@ def check(diff, name, prop, meta, d):
     # --- 2. run the checks against it
     rc, out = sh(f"git -C /repo apply {diff}")
     if rc != 0:
-        print("patch does not apply to /repo:", out); sys.exit(2)
+        # the diff was taken at an earlier commit of /repo: fall back to patch(1) with fuzz, never leave rejects behind
+        rc2, out2 = sh(f"cd /repo && patch -p1 -s -F3 < {diff}")
+        sh("cd /repo && find . -name '*.orig' -not -path './target/*' -delete; find . -name '*.rej' -not -path './target/*' -delete")
+        if rc2 != 0:
+            sh("git -C /repo checkout -- .")
+            print("patch does not apply to /repo:", out, out2); sys.exit(2)
+        meta["applied_with_fuzz"] = True
     fired = {}
     try:
         rc, out = sh("./check all --tier quick", cwd="/verif")
